@@ -236,8 +236,64 @@ fn gen_tuple(rng: &mut Rng, arity: usize, earlier: &[Vec<String>]) -> Vec<String
     t
 }
 
+/// Many children in one vector (hash-map growth, hundreds to thousands of tuples): child i is updated once
+/// by i+1, so the collection must map every requested tuple to exactly its own amount.
+fn many_children(cx: &mut Ctx, rng: &mut Rng) {
+    let n = 200 + rng.usize_below(if cx.thorough { 5000 } else { 1500 });
+    let v = IntCounterVec::new(Opts::new("c05_many", "help"), &["a", "b"]).unwrap();
+    let mut want: BTreeMap<Vec<String>, u64> = BTreeMap::new();
+    for i in 0..n {
+        // pairs from boundary-shifted families: (k{i}, x) / (k, {i}x) ...
+        let t = match i % 4 {
+            0 => vec![format!("k{}", i), "x".to_string()],
+            1 => vec!["k".to_string(), format!("{}x", i)],
+            2 => vec![format!("k{}x", i), String::new()],
+            _ => vec![String::new(), format!("k{}x", i)],
+        };
+        let c = if i % 3 == 0 {
+            let mut m: HashMap<&str, &str> = HashMap::new();
+            m.insert("b", t[1].as_str());
+            m.insert("a", t[0].as_str());
+            v.get_metric_with(&m)
+        } else {
+            v.get_metric_with_label_values(&t)
+        };
+        match c {
+            Ok(c) => c.inc_by(i as u64 + 1),
+            Err(e) => {
+                cx.violation("valid-request-refused", "IntCounter/many-children", format!("{:?}: {}", t, e), jobj! {"children" => n});
+                return;
+            }
+        }
+        *want.entry(t).or_insert(0) += i as u64 + 1;
+    }
+    cx.part.evaluations += n as u64;
+    cx.part.count("many_children_vectors", 1);
+    let mut got: BTreeMap<Vec<String>, u64> = BTreeMap::new();
+    for m in v.collect()[0].get_metric() {
+        let l = m.get_label();
+        let t = vec![l[0].value().to_string(), l[1].value().to_string()];
+        if got.insert(t.clone(), m.get_counter().value() as u64).is_some() {
+            cx.violation("collection-malformed", "IntCounter/many-children", format!("tuple {:?} exported twice among {} children", t, n), jobj! {"children" => n});
+            return;
+        }
+    }
+    if got != want {
+        let diff = want.iter().find(|(t, a)| got.get(*t) != Some(a)).map(|(t, a)| format!("tuple {:?}: expected {}, collection has {:?}", t, a, got.get(t)));
+        cx.violation("children-do-not-match-requested-tuples", "IntCounter/many-children", format!("{} tuples requested, {} children exported; {}", want.len(), got.len(), diff.unwrap_or_default()), jobj! {"children" => n});
+    }
+    cx.distinct(|h| {
+        h.str("many");
+        h.u64(n as u64);
+    });
+}
+
 pub fn run_case(cx: &mut Ctx) {
     let mut rng = Rng::derive(cx.seed, cx.case.wrapping_mul(2).wrapping_add(0xC05));
+    if cx.case % 50 == 11 {
+        many_children(cx, &mut rng);
+        return;
+    }
     let kind = *rng.pick(&[VK::Counter, VK::IntCounter, VK::Gauge, VK::IntGauge, VK::Histogram, VK::LocalCounter, VK::LocalIntCounter, VK::LocalHistogram]);
     let mut ln: Vec<&str> = VALID_LABEL_NAMES.iter().copied().collect();
     rng.shuffle(&mut ln);
